@@ -32,7 +32,9 @@ type AssertResponse struct {
 func (a AssertResponse) Process(resp *http.Response, body io.Reader) (map[string]any, error) {
 	var b []byte
 	var err error
-	if len(a.Body) > 0 && body != nil {
+	// the size predicate is about the received body as well: without this the size of a response was
+	// compared with 0 whenever no body patterns were configured
+	if (len(a.Body) > 0 || a.Size != nil) && body != nil {
 		b, err = io.ReadAll(body)
 		if err != nil {
 			return nil, fmt.Errorf("cant read body: %w", err)
